@@ -7,3 +7,11 @@ add("C14", "exhaustive execution of the real autosort/check_order/apply over "
     "independently coded rule. Right level because the input space is finite.",
     "Trusts the steps' own steps_required/steps_optional declarations as the "
     "specification; apply acceptance probed on one synthetic curve.")
+add("C02", "differential runtime oracle: real model functions vs independent "
+    "closed-form references and the exact parametric Sneddon sphere on "
+    "generated parameter vectors and indentation arrays",
+    "Held on the generated (model, parameters, array) executions: tens of "
+    "thousands per quick run, all five models, both call paths, samples at "
+    "and one ulp around the contact point, sphere depths up to R.",
+    "Reference formulas transcribed from docstrings/publications; 64 eps "
+    "round-off tolerance; says nothing about parameter vectors not generated.")
